@@ -20,34 +20,62 @@ EXTENDS Integers, Sequences, FiniteSets, TLC, Json
 
 CONSTANTS Life,      \* allocation lifetime (seconds)
           MaxGen,    \* allocations tried per path
+          Stream,    \* BOOLEAN: the client is on a stream listener (TCP between client and server)
           MaxDepth
 
-VARIABLES gen, live, rem, zombies, out, last
-vars  == <<gen, live, rem, zombies, out, last>>
-state == <<gen, live, rem, zombies>>
+VARIABLES gen, live, rem, zombies, out, last,
+          cb,        \* "parked": the Allocate handler is inside the operator's OnAllocationCreated callback, which is slow
+          down       \* the server has been closed
+vars  == <<gen, live, rem, zombies, cb, down, out, last>>
+state == <<gen, live, rem, zombies, cb, down>>
 
-Init == gen = 0 /\ live = FALSE /\ rem = 0 /\ zombies = {} /\ out = {} /\ last = [a |-> "Init"]
+Init == gen = 0 /\ live = FALSE /\ rem = 0 /\ zombies = {} /\ cb = "none" /\ down = FALSE /\ out = {} /\ last = [a |-> "Init"]
+\* requests are served one after the other on a 5-tuple: none while the handler of an earlier one is still running
+Idle == cb = "none" /\ ~down
 
 Resp(m, cls, life) == [k |-> "resp", m |-> m, cls |-> cls, life |-> life]
 
 Allocate ==
-  /\ gen < MaxGen
+  /\ Idle /\ gen < MaxGen /\ UNCHANGED <<cb, down>>
   /\ last' = [a |-> "Allocate"]
   /\ IF live THEN UNCHANGED state /\ out' = {Resp("Allocate", "err", -1)}          \* 437
      ELSE gen' = gen + 1 /\ live' = TRUE /\ rem' = Life /\ UNCHANGED zombies
           /\ out' = {Resp("Allocate", "ok", Life)}
+\* an Allocate whose OnAllocationCreated callback takes its time: the allocation exists (its lifetime is running)
+\* while the handler has not answered yet.  Whatever ends the allocation meanwhile ends it; the success that the
+\* handler sends when the callback returns is late but harmless (LateSuccess: the properties are silent about it).
+AllocateSlow ==
+  /\ Idle /\ gen < MaxGen /\ ~live
+  /\ last' = [a |-> "AllocateSlow"]
+  /\ gen' = gen + 1 /\ live' = TRUE /\ rem' = Life /\ cb' = "parked" /\ UNCHANGED <<zombies, down>>
+  /\ out' = {}
+CallbackDone ==
+  /\ cb = "parked"
+  /\ last' = [a |-> "CallbackDone"]
+  /\ cb' = "none" /\ UNCHANGED <<gen, live, rem, zombies, down>>
+  /\ out' = {[k |-> "resp", m |-> "Allocate", cls |-> "ok", life |-> -1, opt |-> down]}   \* (nobody to answer once the server is closed)
+\* Server.Close: everything ends at once (on a stream listener the manager is closed as soon as the listener is,
+\* whatever the connection goroutines are doing)
+ServerClose ==
+  /\ Stream /\ ~down
+  /\ last' = [a |-> "ServerClose"]
+  /\ down' = TRUE /\ live' = FALSE /\ rem' = 0
+  /\ zombies' = IF live THEN zombies \cup {gen} ELSE zombies
+  /\ UNCHANGED <<gen, cb>> /\ out' = {}
 Refresh ==
+  /\ Idle /\ UNCHANGED <<cb, down>>
   /\ last' = [a |-> "Refresh"]
   /\ IF live THEN rem' = Life /\ UNCHANGED <<gen, live, zombies>> /\ out' = {Resp("Refresh", "ok", Life)}
      ELSE UNCHANGED state /\ out' = {}                                             \* no allocation: dropped
 RefreshZero ==
+  /\ Idle /\ UNCHANGED <<cb, down>>
   /\ last' = [a |-> "RefreshZero"]
   /\ IF live THEN live' = FALSE /\ rem' = 0 /\ zombies' = zombies \cup {gen} /\ UNCHANGED gen
                   /\ out' = {Resp("Refresh", "ok", 0)}
      ELSE UNCHANGED state /\ out' = {}
 \* time: to one second before the expiry, or to the expiry (the allocation ends: its reader becomes a straggler)
 Advance(d) ==
-  /\ live /\ d \in {1, rem - 1, rem} /\ d >= 1
+  /\ live /\ d \in {1, rem - 1, rem} /\ d >= 1 /\ UNCHANGED <<cb, down>>
   /\ last' = [a |-> "Advance", d |-> d]
   /\ IF d = rem THEN live' = FALSE /\ rem' = 0 /\ zombies' = zombies \cup {gen}
      ELSE rem' = rem - d /\ UNCHANGED <<live, zombies>>
@@ -55,23 +83,24 @@ Advance(d) ==
 \* the reader of a dead allocation notices the closed socket and ends: nothing else changes
 ReaderExit(g) ==
   /\ g \in zombies
+  /\ (g = gen => cb = "none")      \* the reader of an allocation is started when the Allocate handler is past the callback
   /\ last' = [a |-> "ReaderExit", g |-> g]
   /\ zombies' = zombies \ {g}
-  /\ UNCHANGED <<gen, live, rem>>
+  /\ UNCHANGED <<gen, live, rem, cb, down>>
   /\ out' = {}
 
-Next == Allocate \/ Refresh \/ RefreshZero \/ (\E d \in 1..Life : Advance(d)) \/ (\E g \in 1..MaxGen : ReaderExit(g))
+Next == Allocate \/ AllocateSlow \/ CallbackDone \/ ServerClose \/ Refresh \/ RefreshZero \/ (\E d \in 1..Life : Advance(d)) \/ (\E g \in 1..MaxGen : ReaderExit(g))
 Spec == Init /\ [][Next]_vars
 View == state
 DepthBound == TLCGet("level") <= MaxDepth
 
 \* C06: an allocation, once announced with a lifetime, is ended only by Refresh 0 or by the passing of that time
 C06_OnlyTimeOrRefreshZero ==
-  [][(live /\ ~live') => last'.a \in {"RefreshZero", "Advance"}]_vars
+  [][(live /\ ~live') => last'.a \in {"RefreshZero", "Advance", "ServerClose"}]_vars
 \* C15: a straggler belongs to an allocation that has ended
 C15_StragglersAreDead == \A g \in zombies : g < gen \/ (g = gen /\ ~live)
 
-ASSUME PrintT("META " \o ToJson([Sys |-> "reaper", Extra |-> [Life |-> ToString(Life)]]))
-EmitEdge == PrintT("EDGE " \o ToJson([s |-> [gen |-> gen, live |-> live, rem |-> rem, zombies |-> zombies], a |-> last', o |-> out',
-                                      t |-> [gen |-> gen', live |-> live', rem |-> rem', zombies |-> zombies']]))
+ASSUME PrintT("META " \o ToJson([Sys |-> "reaper", Extra |-> [Life |-> ToString(Life), Stream |-> ToString(Stream)]]))
+EmitEdge == PrintT("EDGE " \o ToJson([s |-> [gen |-> gen, live |-> live, rem |-> rem, zombies |-> zombies, cb |-> cb, down |-> down], a |-> last', o |-> out',
+                                      t |-> [gen |-> gen', live |-> live', rem |-> rem', zombies |-> zombies', cb |-> cb', down |-> down']]))
 =============================================================================
